@@ -250,6 +250,10 @@ func (loc *Location) RuleEnabled(ctx *Context, id string) (bool, error) {
 		Log(WARN, ctx, "Location.RuleEnabled", "location", loc.Name, "uerr", "disabled", "ruleId", id)
 		return false, fmt.Errorf("Location is disabled.")
 	}
+	// (The flag is a property fact of the rule.)
+	if err := loc.CheckRead(ctx); err != nil {
+		return false, err
+	}
 
 	Inc(&loc.stats.TotalCalls, 1)
 	var err error
@@ -827,6 +831,10 @@ func (loc *Location) GetParents(ctx *Context) ([]string, error) {
 	if !loc.Enabled(ctx) {
 		Log(WARN, ctx, "Location.GetParents", "location", loc.Name)
 		return nil, fmt.Errorf("Location is disabled.")
+	}
+	// (The parents are a property fact of the location.)
+	if err := loc.CheckRead(ctx); err != nil {
+		return nil, err
 	}
 
 	Metric(ctx, "GetParents", "location", loc.Name)
